@@ -302,6 +302,77 @@ def finalize_fn():
     return fns[0] if len(fns) == 1 else None
 
 
+def comment_token_language(rep: C.Report) -> None:
+    """Ob9: the comment-removing pass of preprocess_text deletes exactly the comments: with leftmost-shortest matching the
+    strings it can delete at a position are the SHORTEST members of its pattern's language.  z3 (regular languages, no
+    length bound): shortest(L(pattern)) == (newline)? '<!--' u '-->' where '-->' does not occur earlier.  A witness of a
+    difference is embedded in a document and replayed against the reference stripper."""
+    import re as _re
+
+    import z3
+
+    from vf import passes as PS
+    from vf import resym as R
+
+    ob = rep.add(C.Ob("Ob9 the comment pass deletes exactly the closed comments (shortest-match language equals the comment grammar)", "E2 z3 regex (language equality of shortest matches, unbounded) + replay", ["core.py:Wtp.preprocess_text (comment pass)"], "all strings, no length bound"))
+    try:
+        tree = ast.parse(open(os.path.join(C.SRC, "core.py")).read())
+        fns = [f for q, f in AP.functions(tree) if q[-1] == "preprocess_text"]
+        ps = PS.passes(fns[0], tree) if len(fns) == 1 else []
+        comment = PS.find_pass(ps, ["<!--x-->"], ["<nowiki/>"])
+        if comment is None:
+            ob.verdict, ob.detail = C.NOT_ENCODABLE, "comment pass not identified"
+            return
+        Lp = R.fullmatch_lang(comment.pattern, comment.flags)
+        anyplus = z3.Concat(R.ALLCH, R.ANYSTAR)
+        shortest = z3.Intersect(Lp, z3.Complement(z3.Concat(Lp, anyplus)))
+        has_end = z3.Concat(R.ANYSTAR, z3.Re("-->"), R.ANYSTAR)
+        X = z3.Intersect(z3.Concat(R.ANYSTAR, z3.Re("--")), z3.Complement(has_end))
+        A = z3.Concat(z3.Option(z3.Re("\n")), z3.Re("<!--"), X, z3.Re(">"))
+        x = z3.String("x")
+        wit = None
+        for label, lhs, rhs in (("a deletable span that is not a closed comment", shortest, A), ("a closed comment that is not deleted as a whole", A, shortest)):
+            sol = z3.Solver()
+            sol.set("timeout", 60000)
+            sol.add(z3.InRe(x, lhs), z3.Not(z3.InRe(x, rhs)))
+            r = str(sol.check())
+            ob.queries += 1
+            ob.paths += 1
+            ob.conditions += 1
+            if r == "unsat":
+                ob.confirmed_conditions += 1
+            elif r == "sat":
+                wit = (label, R.z3str_to_py(sol.model().eval(x, model_completion=True).as_string()))
+                break
+            else:
+                ob.detail += f"{label}: solver {r}; "
+        ob.samples.append({"pattern": comment.pattern, "witness": wit})
+        if wit is None and not ob.detail and not C.distrust():
+            ob.verdict = C.DISCHARGED
+            return
+        from wikitextprocessor import Wtp
+
+        w = Wtp(quiet=True, quiet_output=True)
+        ref = lambda d: _re.sub(r"(?s)\n?<!--.*?-->", "", d)  # noqa: E731
+        docs = ["top<!-- old -- > {{#expr:1+1}} -->level", "a<!---->b", "a\n<!-- x -->b", "a<!-- [[l]] --\n> ''i'' -->b"]
+        if wit is not None:
+            docs.insert(0, "x" + wit[1] + " ''y'' -->z")
+        for d in docs:
+            w.start_page("T")
+            got = w.expand(d)
+            w.start_page("T")
+            want = w.expand(ref(d))
+            if got != want:
+                v = rep.violation("expand(" + repr(d) + ")", f"result {got!r}; with the closed comments deleted first the text expands to {want!r}" + (f" (z3 witness: {wit[0]}: {wit[1]!r})" if wit else ""), {"doc": d})
+                ob.verdict = C.VIOLATED if v.known is None else C.KNOWN
+                return
+        ob.detail += "the comment pattern's shortest-match language differs from the comment grammar (or could not be decided), but the replay documents lose exactly their comments -> inconclusive"
+    except R.Unsupported as e:
+        ob.verdict, ob.detail = C.NOT_ENCODABLE, f"pattern not encodable: {e}"
+    except Exception as e:  # noqa: BLE001
+        ob.detail += f"{type(e).__name__}: {e}"
+
+
 def finalize_fixpoint(rep: C.Report) -> None:
     """Ob7: _finalize_expand substitutes placeholders inside a loop that only ends when a pass changes nothing (unexpanded
     constructs put their arguments back verbatim, so each nesting level needs one more pass).  AST/E3 fact: the substitution call
@@ -363,6 +434,7 @@ def run(rep: C.Report) -> None:
     n_cookie_passthrough(rep)
     preprocess_order(rep)
     finalize_fixpoint(rep)
+    comment_token_language(rep)
 
 
 def replay(r: dict) -> int:
